@@ -5,10 +5,10 @@ SPECS = os.path.join(os.path.dirname(os.path.dirname(os.path.abspath(__file__)))
 BASE = dict(MaxStmts=3, MaxDepth=3, MaxUnits=1, MaxVar=1, UnitKinds="ExhUnits", ConKinds="ExhCons", SpecKinds="ExhSpec",
             SimpleV="Set1", DeclV="Set1", UseV="Set1", FormatV="Set1", CompV="Set1", TbindV="Set1",
             NameChoices="Set01", EndForms="Set02", LabelStmts="FALSE", Contains="TRUE",
-            PKinds="KCmt", MaxEdits=1, InsSet="InsSmall", MinEdits=0, Randomised="FALSE", DumpMod=1, NRepl=17, RichOnly="FALSE", MaxRich="<- Unlimited")
+            PKinds="KCmt", MaxEdits=1, InsSet="InsSmall", MinEdits=0, Randomised="FALSE", DumpMod=1, NRepl=17, RichOnly="FALSE", NeedStruct="FALSE", MaxRich="<- Unlimited")
 SIM = dict(MaxStmts=30, MaxDepth=5, MaxUnits=3, MaxVar=9, UnitKinds="AllUnits", ConKinds="AllCons", SpecKinds="AllSpec",
            SimpleV="SimpleAll", DeclV="DeclAll", UseV="UseAll", FormatV="FormatAll", CompV="CompAll", TbindV="TbindAll",
-           NameChoices="Set01", EndForms="Set012", LabelStmts="TRUE", Contains="TRUE", InsSet="InsAll", MinEdits=1, Randomised="TRUE", DumpMod=1, NRepl=17, RichOnly="FALSE", MaxRich="<- Unlimited")
+           NameChoices="Set01", EndForms="Set012", LabelStmts="TRUE", Contains="TRUE", InsSet="InsAll", MinEdits=1, Randomised="TRUE", DumpMod=1, NRepl=17, RichOnly="FALSE", NeedStruct="FALSE", MaxRich="<- Unlimited")
 TABLE = {
     "Perturb_c11_quick": dict(BASE, PKinds="KCmt", MaxEdits=1, DumpMod=16),
     "Perturb_c11_thorough": dict(BASE, PKinds="KCmt", MaxEdits=1, MaxStmts=4),
@@ -20,6 +20,8 @@ TABLE = {
     "Perturb_c07_thorough": dict(BASE, PKinds="KGarb", MaxEdits=1, MaxStmts=4),
     "Perturb_c07_sim": dict(SIM, PKinds="KGarbLay", MaxEdits=4),
     "Perturb_c08_quick": dict(BASE, PKinds="KStruct", MaxEdits=1, ConKinds="NestCons", DumpMod=11),
+    "Perturb_c08b_quick": dict(BASE, PKinds="KRenCmt", MaxEdits=2, MinEdits=2, NeedStruct="TRUE", ConKinds="NestCons", DumpMod=2, NCmtCls=2, NCppForms=2),
+    "Perturb_c08b_thorough": dict(BASE, PKinds="KRenCmt", MaxEdits=2, MinEdits=2, NeedStruct="TRUE", ConKinds="NestCons", MaxStmts=4, DumpMod=1, NCmtCls=3, NCppForms=4),
     "Perturb_c08_thorough": dict(BASE, PKinds="KStruct", MaxEdits=1, ConKinds="NestCons", MaxStmts=4),
     "Perturb_c08_sim": dict(SIM, PKinds="KStructCmt", MaxEdits=3),
     "Perturb_c13_quick": dict(BASE, PKinds="KInc", MaxEdits=2, DumpMod=32),
@@ -47,12 +49,14 @@ TABLE = {
 SUBST = {"UnitKinds", "ConKinds", "SpecKinds", "SimpleV", "DeclV", "UseV", "FormatV", "CompV", "TbindV", "NameChoices", "EndForms", "PKinds", "InsSet"}
 for name, d in TABLE.items():
     L = ["SPECIFICATION Spec", "CONSTANTS"]
+    ncmt = d.pop("NCmtCls", 7 if "_c15_" in name else 8)
+    ncpp = d.pop("NCppForms", 18)
     for k, v in d.items():
         if k == "MaxRich":
             L.append("  MaxRich " + v)
             continue
         L.append("  %s %s %s" % (k, "<-" if k in SUBST else "=", v))
-    L += ["  NCmtCls = %d" % (7 if "_c15_" in name else 8), "  NCppForms = 18", "  NGarb = 3", "  DirectiveCls <- DirCls",
+    L += ["  NCmtCls = %d" % ncmt, "  NCppForms = %d" % ncpp, "  NGarb = 3", "  DirectiveCls <- DirCls",
           "INVARIANT WellNested", "INVARIANT GrammarInNest", "CONSTRAINT PDump"]
     open(os.path.join(SPECS, name + ".cfg"), "w").write("\n".join(L) + "\n")
 print(len(TABLE), "cfg files written")
